@@ -154,7 +154,7 @@ let string_of_fail (f : fail) : string * string =
   | F04_many (i, inst) -> ("many", Printf.sprintf "it %s: more than 3 follow-up questions for %s without new records" (k i) (hx inst))
   | F04_labels (i, ls) -> ("labels", Printf.sprintf "it %s: follow-up asks for labels %s that no delivered PTR points to" (k i) (String.concat "." (List.map hx ls)))
   | F05_alive (i, ch, ty, inst) -> ("alive", Printf.sprintf "it %s ch %s: ServiceRemoved for %s while PTR, SRV and address are live" (k i) (k ch) (hx inst))
-  | F05_dead (i, ch, ty, inst, soon) -> ((if soon then "dead:ptr-last-second" else "dead"), Printf.sprintf "it %s ch %s: %s still reported resolved, but PTR/SRV/address ran out" (k i) (k ch) (hx inst))
+  | F05_dead (i, ch, ty, inst, soon, _) -> ((if soon then "dead:ptr-last-second" else "dead"), Printf.sprintf "it %s ch %s: %s still reported resolved, but PTR/SRV/address ran out" (k i) (k ch) (hx inst))
   | F05_wake (i, ch, ty, inst) -> ("wake", Printf.sprintf "it %s ch %s: requested wake-up later than the expiry that ends %s" (k i) (k ch) (hx inst))
   | F05_again (i, ch, inst) -> ("again", Printf.sprintf "it %s ch %s: ServiceResolved for %s after ServiceRemoved without new records" (k i) (k ch) (hx inst))
 
@@ -188,19 +188,14 @@ let two_types dl inst =
 let refine ifs iters (f : fail) (tag : string) : string =
   let dl = all_dlvs ifs iters in
   match f with
-  | F04_order (_, _, inst) ->
-    (* the PTR of the instance was first cached from a goodbye (TTL 0): its re-announcement is no new record *)
-    if List.exists (fun d -> d.dl_rr.r_type = ty_ptr && int_of_n d.dl_rr.r_ttl <= 1
-                             && (match d.dl_rr.r_data with RPtr a -> a = inst | _ -> false)) dl
-    then "order:refresh-only" else tag
-  | F04_complete (_, _, _, inst, fresh) -> if fresh && case_mismatch dl inst then "complete:case" else tag
   | F04_labels (_, ls) ->
     let targets = List.concat_map (fun it -> List.concat_map (fun d -> ptr_targets_of d.d_data) it.i_dgrams) iters in
     if List.exists (fun t -> t <> ls && name_labels (dotted t) = ls) targets then "labels:presentation" else tag
   | F05_alive (_, _, ty, inst) -> if ptr_variants dl ty inst then "alive:ptr-variant" else tag
-  | F05_dead (_, _, _, inst, soon) ->
-    if soon then tag else if case_mismatch dl inst then "dead:case" else if two_types dl inst then "dead:two-types" else tag
-  | F05_wake (_, _, _, inst) -> if case_mismatch dl inst then "dead:case" else tag
+  | F05_dead (_, _, _, inst, soon, srv_live) ->
+    (* the SRV is still there (an address ran out) and two PTR names point to the instance:
+       resolve_updated_instances reports the removal under one of them only *)
+    if soon then tag else if srv_live && two_types dl inst then "dead:two-names-addr" else tag
   | _ -> tag
 
 let verdict ifs iters (fs : fail list) : string =
